@@ -67,7 +67,7 @@ UNITS = {"default": None, "distinct": C.UNITS_DISTINCT, "one-empty": ["nm", "", 
 LABELS = {"default": None, "custom": ("a", "b", "c", "d"), "odd": ("my comp", "B-2", "mz", "d_4")}
 DTYPES_Q = ["float64", "int64", "complex128"]
 DTYPES_T = DTYPES_Q + ["float32", "bool"]
-GEO_ATTRS = ["cell", "pmin", "pmax", "tolerance_factor", "coord-units"]
+GEO_ATTRS = ["cell", "pmin", "pmax", "tolerance_factor", "coord-units", "coord-units-of-the-first-axis-only"]
 
 
 def _meshes(tier):
@@ -278,6 +278,8 @@ def _strip(xa, removed, dims):
         if k == "coord-units":
             for d in dims:
                 xa[d].attrs.pop("units", None)
+        elif k == "coord-units-of-the-first-axis-only":
+            xa[dims[0]].attrs.pop("units", None)
         else:
             xa.attrs.pop(k, None)
     return xa
@@ -290,7 +292,7 @@ def unit_strip(ctx):
     nvdim = ctx.choose("nvdim", [1, 3])
     dims = ctx.choose("dims", C.DIMSETS[len(n)][:2] if not thorough else C.DIMSETS[len(n)])
     rem = ctx.choose("removed", ["+".join(k for i, k in enumerate(GEO_ATTRS) if (b >> i) & 1) or "nothing"
-                                 for b in range(32)])
+                                 for b in range(2 ** len(GEO_ATTRS)) if not ((b >> 4) & 1 and (b >> 5) & 1)])
     removed = [] if rem == "nothing" else rem.split("+")
     # (a scalar field keeps the default "no label": the loss of a scalar's label is unit export's finding)
     f = _field(n, fam, nvdim, "custom" if nvdim > 1 else "default", "float64", ctx.seed, dims=dims,
@@ -341,7 +343,7 @@ def unit_strip(ctx):
     if _labels(r) != _labels(f):
         ctx.fail("from_xarray/stripped/labels", f"labels {_labels(f)} imported as {_labels(r)}", instance=inst)
     ctx.check(2)
-    if "coord-units" not in removed and tuple(r.mesh.region.units) != tuple(f.mesh.region.units):
+    if not any(k.startswith("coord-units") for k in removed) and tuple(r.mesh.region.units) != tuple(f.mesh.region.units):
         ctx.fail("from_xarray/stripped/region-units", f"units {f.mesh.region.units} imported as {r.mesh.region.units}",
                  instance=inst)
     if "tolerance_factor" not in removed and r.mesh.region.tolerance_factor != f.mesh.region.tolerance_factor:
